@@ -81,7 +81,9 @@ def verify_unit(u, reg):
     axioms = []
     for sn in sorted(uu.get('_orders', [])):
       axioms.extend(prove.order_axioms(sn))
-  except symex.Unsupported as e:
+  except (symex.Unsupported, z3.Z3Exception) as e:
+    # a construct outside the encoded subset (incl. an ill-sorted term, e.g. a list literal mixing
+    # element types): no VC is generated, the unit is undecided for the deductive tier
     res['status'] = 'out-of-subset'
     res['error'] = str(e)
     res['time'] = time.time() - t0
